@@ -167,7 +167,6 @@ func scenario(op *spec.Op, path string, maxLen int) e1.Scenario {
 	return scenarioX(op, path, maxLen, false)
 }
 
-
 func burstScenario(op *spec.Op, path string, maxLen int) e1.Scenario {
 	sc := scenarioY(op, path, maxLen, false, true)
 	sc.Name += "/burst"
@@ -334,6 +333,9 @@ func budget(r *vk.Run) time.Duration {
 
 func main() {
 	r := vk.Start("C03", "model_checking")
+	if r.Worker == "" && r.Replay == "" {
+		runReflectedOps(r)
+	}
 	scenarios := []e1.Scenario{}
 	long, short := 4, 3
 	if r.Thorough() {
